@@ -10,6 +10,7 @@ SPEC = {'id': 'C18',
  'modules': [_P, _PA, _T],
  'theorems': [(_P, _N + 'clientAddr_spec'),
               (_P, _N + 'clientAddr_tells_that_address'),
+              (_P, _N + 'clientAddr_depends_on_address_only'),
               (_P, _N + 'render_parses_back'),
               (_P, _N + 'render_parses_back_v4'),
               (_P, _N + 'parseIP_len16'),
